@@ -262,3 +262,160 @@ Section Frames.
       inversion H; subst. split; [assumption|]. split; [eauto | reflexivity].
   Qed.
 End Frames.
+
+(** ** key hypotheses (proved for the concrete builders of host/keys.go in Proofs/PacketKeys.v) *)
+Definition valid_triple (P : params) (t : triple) : Prop :=
+  valid_name P (fst (fst t)) = true /\ valid_name P (snd (fst t)) = true.
+
+Record keys_ok (P : params) : Prop := mkKeysOk {
+  (* the four families never collide, whatever the arguments *)
+  ko_ra : forall t t', rkey P t <> akey P t';
+  ko_rc : forall t t', rkey P t <> ckey P t';
+  ko_rn : forall t a b, rkey P t <> nextseq_key P a b;
+  ko_ac : forall t t', akey P t <> ckey P t';
+  ko_an : forall t a b, akey P t <> nextseq_key P a b;
+  ko_cn : forall t a b, ckey P t <> nextseq_key P a b;
+  (* a key built from valid chain names is built from no other arguments *)
+  ko_rinj : forall t t', valid_triple P t -> rkey P t = rkey P t' -> t = t';
+  ko_ainj : forall t t', valid_triple P t -> akey P t = akey P t' -> t = t';
+  ko_cinj : forall t t', valid_triple P t -> ckey P t = ckey P t' -> t = t';
+  ko_ninj : forall a b a' b', valid_name P a = true -> valid_name P b = true ->
+                              nextseq_key P a b = nextseq_key P a' b' -> a = a' /\ b = b' }.
+
+(** ** "every binding of a family is kept" *)
+Section Keeps.
+  Variable P : params.
+
+  Definition keeps (K : bytes -> Prop) (s s' : cstate) : Prop :=
+    forall k v, K k -> sget k s = Some v -> sget k s' = Some v.
+
+  Lemma keeps_refl (K : bytes -> Prop) s : keeps K s s. Proof. intros k v _ H; exact H. Qed.
+  Lemma keeps_trans (K : bytes -> Prop) a b c : keeps K a b -> keeps K b c -> keeps K a c.
+  Proof. intros H1 H2 k v Kk H. apply H2; [assumption|]. apply H1; assumption. Qed.
+  Lemma keeps_set_other (K : bytes -> Prop) k v s : (forall k', K k' -> k' <> k) -> keeps K s (set_kv k v s).
+  Proof. intros D k' v' Kk H. rewrite sget_set_kv_other; [assumption | apply D; assumption]. Qed.
+  Lemma keeps_set_fresh (K : bytes -> Prop) k v s : sget k s = None -> keeps K s (set_kv k v s).
+  Proof.
+    intros F k' v' _ H. destruct (bytes_eq_dec k' k) as [->|N]; [congruence|].
+    rewrite sget_set_kv_other; assumption.
+  Qed.
+  Lemma keeps_del_other (K : bytes -> Prop) k s : (forall k', K k' -> k' <> k) -> keeps K s (del_kv k s).
+  Proof. intros D k' v' Kk H. rewrite sget_del_kv_other; [assumption | apply D; assumption]. Qed.
+  Lemma keeps_add_log (K : bytes -> Prop) e s : keeps K s (add_log e s). Proof. intros k v _ H; exact H. Qed.
+  Lemma keeps_set_cseq (K : bytes -> Prop) d n s : keeps K s (set_cseq d n s). Proof. intros k v _ H; exact H. Qed.
+
+  Definition is_rkey (k : bytes) : Prop := exists t, k = rkey P t.
+  Definition is_akey (k : bytes) : Prop := exists t, k = akey P t.
+  Definition is_ckey (k : bytes) : Prop := exists t, k = ckey P t.
+
+  Lemma rkey_eq s d q : receipt_key P s d q = rkey P (s, d, q). Proof. reflexivity. Qed.
+  Lemma akey_eq s d q : ack_key P s d q = akey P (s, d, q). Proof. reflexivity. Qed.
+  Lemma ckey_eq s d q : commitment_key P s d q = ckey P (s, d, q). Proof. reflexivity. Qed.
+
+  (** SendPacket writes one nextSequenceSend key and one commitment key *)
+  Lemma send_keeps (K : bytes -> Prop) s p ok s' :
+    (forall k, K k -> forall a b, k <> nextseq_key P a b) -> (forall k, K k -> forall t, k <> ckey P t) ->
+    send_packet P s p ok = Ok s' -> keeps K s s'.
+  Proof.
+    intros Dn Dc H. apply send_packet_ok in H as (_ & _ & _ & _ & _ & bz & _ & ->). unfold sent_state.
+    eapply keeps_trans; [|apply keeps_add_log].
+    eapply keeps_trans; [|apply keeps_set_other; intros k' Kk; rewrite ckey_eq; apply Dc; exact Kk].
+    eapply keeps_trans; [|apply keeps_add_log].
+    eapply keeps_trans; [|apply keeps_set_cseq].
+    apply keeps_set_other. intros k' Kk. apply Dn; exact Kk.
+  Qed.
+
+  Lemma call_packet_keeps (K : bytes -> Prop) s e cb s' :
+    (forall k, K k -> forall a b, k <> nextseq_key P a b) -> (forall k, K k -> forall t, k <> ckey P t) ->
+    call_packet P s e cb = Ok s' -> keeps K s s'.
+  Proof.
+    intros Dn Dc. apply (call_packet_rel P (keeps K)).
+    - apply keeps_refl.
+    - apply keeps_trans.
+    - intros; eapply send_keeps; eauto.
+    - intros; apply keeps_add_log.
+  Qed.
+
+  Lemma hook_sends_keeps (K : bytes -> Prop) s l s' :
+    (forall k, K k -> forall a b, k <> nextseq_key P a b) -> (forall k, K k -> forall t, k <> ckey P t) ->
+    hook_sends P s l = Ok s' -> keeps K s s'.
+  Proof.
+    intros Dn Dc. apply (hook_sends_rel P (keeps K)).
+    - apply keeps_refl.
+    - apply keeps_trans.
+    - intros; eapply send_keeps; eauto.
+  Qed.
+End Keeps.
+
+(** ** inversion of the two message handlers *)
+Section Handlers.
+  Variable P : params.
+
+  Lemma recv_handler_ok env s m cb s' :
+    recv_handler P env s m cb = Ok s' ->
+    let p := fst (decode P (rm_packet m)) in
+    exists s1 relayer,
+      recv_keeper P env s m = Ok s1 /\ snd (decode P (rm_packet m)) = false /\
+      relayer_on_other_chain s1 (p_src p) (rm_signer m) = Ok (Some relayer) /\
+      ((p_dst p = st_name s1 /\
+        exists s3 a bz, pack_ack P a = Some bz /\ write_ack P s3 p bz = Ok s' /\
+          ((call_packet P s1 (EvOnRecv p) cb = Err /\ s3 = s1 /\ a = mkAck 1 [] msg_callback_failed relayer (p_fee p)) \/
+           (exists s2 code res msg, call_packet P s1 (EvOnRecv p) cb = Ok s2 /\ cb_ret cb = Some (code, res, msg) /\
+              a = mkAck code res msg relayer (p_fee p) /\ s3 = if code =? 0 then s2 else s1))) \/
+       (p_dst p <> st_name s1 /\ aget (p_dst p) (st_clients s1) = None /\
+        exists bz, pack_ack P (mkAck 1 [] msg_dst_not_found relayer (p_fee p)) = Some bz /\ write_ack P s1 p bz = Ok s') \/
+       (p_dst p <> st_name s1 /\ (exists c, aget (p_dst p) (st_clients s1) = Some c) /\ s' = s1)).
+  Proof.
+    unfold recv_handler. intro H.
+    destruct (recv_keeper P env s m) as [s1| |] eqn:RK; cbn [obind] in H; try discriminate.
+    destruct (decode P (rm_packet m)) as [p err] eqn:D. cbn [fst snd]. cbv zeta.
+    destruct err; [discriminate|].
+    destruct (relayer_on_other_chain s1 (p_src p) (rm_signer m)) as [[relayer|]| |] eqn:RL; cbn [obind] in H; try discriminate.
+    exists s1, relayer. split; [reflexivity|]. split; [reflexivity|]. split; [exact RL|].
+    destruct (bytes_eqb_spec (p_dst p) (st_name s1)) as [E|E].
+    - left. split; [assumption|].
+      destruct (call_packet P s1 (EvOnRecv p) cb) as [s2| |] eqn:CP; try discriminate.
+      + destruct (cb_ret cb) as [[[code res] msg]|] eqn:CR; [|discriminate].
+        destruct (pack_ack P (mkAck code res msg relayer (p_fee p))) as [bz|] eqn:PA; [|discriminate].
+        exists (if code =? 0 then s2 else s1), (mkAck code res msg relayer (p_fee p)), bz.
+        split; [assumption|]. split; [assumption|]. right. exists s2, code, res, msg. repeat split; reflexivity.
+      + destruct (pack_ack P (mkAck 1 [] msg_callback_failed relayer (p_fee p))) as [bz|] eqn:PA; [|discriminate].
+        exists s1, (mkAck 1 [] msg_callback_failed relayer (p_fee p)), bz.
+        split; [assumption|]. split; [assumption|]. left. repeat split; reflexivity.
+    - right. destruct (aget (p_dst p) (st_clients s1)) as [c|] eqn:C.
+      + right. inversion H; subst. split; [assumption|]. split; [eauto|reflexivity].
+      + left. split; [assumption|]. split; [reflexivity|].
+        destruct (pack_ack P (mkAck 1 [] msg_dst_not_found relayer (p_fee p))) as [bz|] eqn:PA; [|discriminate].
+        exists bz. split; [reflexivity | assumption].
+  Qed.
+
+  Lemma ack_handler_ok env s m cb1 cb2 cb3 s' :
+    ack_handler P env s m cb1 cb2 cb3 = Ok s' ->
+    let p := fst (decode P (am_packet m)) in
+    exists s1 a,
+      ack_keeper P env s m = Ok s1 /\ decode_ack P (am_ack m) = Some a /\ ack_empty a = false /\
+      ((p_src p <> st_name s1 /\ s' = s1) \/
+       (p_src p = st_name s1 /\
+        exists s2 s3 r addr,
+          call_packet P s1 (EvAckStatus (p_dst p) (p_seq p) (if a_code a =? 0 then 1 else 2)) cb1 = Ok s2 /\
+          relayer_on_teleport P s2 (p_dst p) (a_relayer a) = Ok (Some r) /\ bech32_decode P r = Some addr /\
+          call_packet P s2 (EvFee (p_dst p) (p_seq p) addr) cb2 = Ok s3 /\
+          call_packet P s3 (EvOnAck p a) cb3 = Ok s')).
+  Proof.
+    unfold ack_handler. intro H.
+    destruct (ack_keeper P env s m) as [s1| |] eqn:AK; cbn [obind] in H; try discriminate.
+    destruct (decode P (am_packet m)) as [p err] eqn:D. cbn [fst snd]. cbv zeta.
+    destruct err; [discriminate|].
+    destruct (decode_ack P (am_ack m)) as [a|] eqn:DA; [|discriminate].
+    destruct (ack_empty a) eqn:AE; [discriminate|].
+    exists s1, a. split; [reflexivity|]. split; [first [reflexivity | exact DA]|]. split; [first [reflexivity | exact AE]|].
+    destruct (bytes_eqb_spec (p_src p) (st_name s1)) as [E|E].
+    - right. split; [assumption|].
+      destruct (call_packet P s1 _ cb1) as [s2| |] eqn:C1; cbn [obind] in H; try discriminate.
+      destruct (relayer_on_teleport P s2 (p_dst p) (a_relayer a)) as [[r|]| |] eqn:RT; cbn [obind] in H; try discriminate.
+      destruct (bech32_decode P r) as [addr|] eqn:BD; [|discriminate].
+      destruct (call_packet P s2 _ cb2) as [s3| |] eqn:C2; cbn [obind] in H; try discriminate.
+      exists s2, s3, r, addr. repeat split; assumption.
+    - left. inversion H; subst. split; [assumption | reflexivity].
+  Qed.
+End Handlers.
